@@ -35,6 +35,10 @@ func Harness_C13_direct_children() {
 	p.VerifInsert(&models.Header{Name: "/", Typeflag: tar.TypeDir, Paxrecords: "{}"})
 	p.VerifSetRoot("/")
 	a := VerifComponent("A", 1, c13Alpha)
+	if vm.Bool("multiByteDirectoryName") {
+		// SQLite counts characters where Go counts bytes: a directory name with 2 / 3 more bytes than characters
+		a = []string{"\xc3\xa9\xc3\xa9", "\xe6\x97\xa5"}[vm.Choice("multiByteName", 2)]
+	}
 	dir := "/" + a
 	p.VerifInsert(&models.Header{Name: dir, Typeflag: tar.TypeDir, Paxrecords: "{}"})
 	// child directory, grandchild directory, great-grandchild file (4 levels), a sibling and a tombstone
